@@ -587,12 +587,20 @@ def spawn_layer_in_subprocess(result, script_parts, options, features,
         errlines = stderr_buf[0].splitlines()
         erriter = iter(errlines)
         nfail = nerr = 0
+        skipped_line = None
         for line in erriter:
             try:
                 result.num_ran, nfail, nerr = map(int, line.strip().split())
             except ValueError:
+                # The line right before the report may tell how many tests
+                # the subprocess skipped.
+                skipped_line = re.match(br'skipped (\d+)$', line.strip())
                 continue
             else:
+                if skipped_line is not None:
+                    skipped.extend(
+                        [("skipped in subprocess for %s" % layer_name, None)]
+                        * int(skipped_line.group(1)))
                 break
         else:
             errmsg = "Could not communicate with subprocess!"
